@@ -15,7 +15,7 @@ string arguments).
 A case is a dict(id, method, cls, op); trace files carry `#@ cls=<label>` before the op line; a trace is a
 self-contained session stream (`reset` first).
 """
-import json, os, random, re
+import functools, json, os, random, re
 from . import common as C
 
 S = lambda s: s.encode("utf-8").hex()
@@ -247,6 +247,7 @@ PRELUDE = {"merge_pending_commit": ["self_update on=A g=$G0"], "clear_pending_co
 # the valid call must answer ok on a fresh session
 HAPPY = [m for m in METHODS]
 
+@functools.lru_cache(maxsize=None)
 def classes_for(ty, valid):
     if ty == "gid": return hexid_classes(valid, None)
     if ty in ("eid", "pk", "id32"): return hexid_classes(valid, 32)
@@ -271,7 +272,7 @@ def classes_for(ty, valid):
     if ty == "path":
         return [("tmp", "$TMP"), ("memory", "$MEM"), ("empty", "h:"), ("dir-itself", "$DIR"), ("missing-subdirs", "$DIR+" + S("/a/b/c/x.db")), ("nul", "$DIR+" + S("/a\x00b.db")),
                 ("unicode", "$DIR+" + S("/дб🔑.db")), ("long-name", "$DIR+" + S("/" + "n" * 300 + ".db")), ("long-path", "$DIR+" + S("/p" * 3000 + ".db")),
-                ("uri", lit("file:x?mode=memory")), ("relative-dot", "$DIR+" + S("/./x/../y.db"))]
+                ("uri-like-name", "$DIR+" + S("/file:x?mode=memory")), ("relative-dot", "$DIR+" + S("/./x/../y.db"))]
     if ty in ("bytes32", "bytes12"): return BYTES32 + [("token", valid)]
     if ty in ("optbytes32", "optbytes12"): return [("none", "-")] + BYTES32 + ([("token", valid)] if valid else [])
     if ty in ("ooptbytes32", "ooptbytes12"): return [("none", "-"), ("clear", "null")] + BYTES32
@@ -334,6 +335,20 @@ def happy_session():
     assert set(seq) == set(METHODS)
     return [mk("reset", "reset", "reset")] + [mk(m, "happy", call_line(m, {})) for m in seq]
 
+def config_sessions():
+    """the scripted valid calls on objects built with extreme MdkConfig numbers (only the no-panic oracle applies:
+    with zero ages every event is too old, with zero retention nothing is kept …)"""
+    out = []
+    for name, cfg in CFG_CLASSES:
+        if name == "none":
+            continue
+        hs = happy_session()
+        hs[0] = mk("reset", "reset", f"reset cfg={cfg}")
+        for c in hs[1:]:
+            c["cls"] = f"session-cfg={name}"
+        out += hs
+    return out
+
 def ambiguity_block():
     """inputs with two spellings, on a fresh session, BEFORE the honest spelling is used"""
     ops = [("process_message", "process_message on=B j=$MSGJ1K!unk"), ("parse_key_package", "parse_key_package on=A j=$KPJCK!unk"),
@@ -373,7 +388,7 @@ def random_block(rng, n):
 
 def generate(seed, tier):
     rng = random.Random(seed * 7919 + 11)
-    cases = happy_session() + ambiguity_block()
+    cases = happy_session() + ambiguity_block() + config_sessions()
     for m in METHODS:
         cases += method_block(m)
     nblocks, per = (3, 150) if tier == "quick" else (60, 400)
@@ -403,6 +418,8 @@ def load_traces(paths):
                 k += 1
                 if l == "reset" and k == 1:
                     continue
+                if l.startswith("reset"):
+                    cls = "reset"
                 cases.append({"id": f"corpus:{os.path.basename(p)}:{k}", "method": l.split()[0], "cls": cls, "op": l})
     return cases
 
@@ -435,14 +452,14 @@ def kind_of(c):
 def case_text(cases, i, note=""):
     """a self-contained replay: the session the call ran in, up to the call"""
     j = i
-    while j > 0 and cases[j]["op"] != "reset":
+    while j > 0 and not cases[j]["op"].startswith("reset"):
         j -= 1
     c = cases[i]
     state_changing = [x for x in cases[j:i] if x["impl"].startswith("ok") and x["method"] not in READ_ONLY]
     lines = [f"# case {c['id']}: {note}"] if note else [f"# case {c['id']}"]
-    lines.append("reset")
+    lines.append(cases[j]["op"] if cases[j]["op"].startswith("reset") else "reset")
     for x in state_changing:
-        if x["op"] != "reset":
+        if not x["op"].startswith("reset"):
             lines += [f"#@ cls=context", x["op"]]
     lines += [f"#@ cls={c['cls']}", c["op"]]
     return "\n".join(lines) + "\n"
@@ -483,7 +500,7 @@ def correspondence(cases, facts):
     tab, _ = stage_table(facts)
     fails, compared, decided = [], 0, 0
     for i, c in enumerate(cases):
-        if c["op"] == "reset":
+        if c["op"].startswith("reset"):
             continue
         if c["impl"].startswith(("PANIC", "DIED", "NOT-RUN", "setup-failed")):
             continue                                        # the oracle's business
@@ -552,7 +569,7 @@ def oracle(cases, facts=None):
     def observe(k): stats["observations"][k] = stats["observations"].get(k, 0) + 1
     for i, c in enumerate(cases):
         a = c["impl"]
-        if c["op"] == "reset":
+        if c["op"].startswith("reset"):
             if not a.startswith("ok:reset"):
                 if a.startswith("PANIC"):
                     stats["panics"] += 1
@@ -619,7 +636,7 @@ def panic_site(msg):
 def histogram(cases):
     h = {}
     for c in cases:
-        if c["op"] == "reset":
+        if c["op"].startswith("reset"):
             continue
         argcls = "+".join(sorted({p.split(":")[0] + ":" + classfam(p) for p in c["cls"].split("+")})) if ":" in c["cls"] else c["cls"]
         k = f"{c['method']}|{argcls}|{kind_of(c)}"
